@@ -117,7 +117,8 @@ Record query := {
 Record env := {
   e_ix : index;
   e_dhcp : addr -> option bytes;
-  e_anon : bool;                  (* the anonymizer currently stored in the IPMut *)
+  e_anon : bool;                  (* the anonymizer currently stored in the shared IPMut *)
+  e_qlog_enabled : bool;          (* querylog conf.Enabled (queryLog.Add returns early otherwise) *)
   e_refuse_any : bool;
   e_qign : bytes -> bool;         (* querylog ignore engine *)
   e_sign : bytes -> bool          (* statistics ignore engine *)
@@ -134,7 +135,9 @@ Definition ids_of (q : query) : list id :=
 Definition recorded_ip (ev : env) (q : query) : bytes :=
   if e_anon ev then anonymize (fst (q_addr q)) else fst (q_addr q).
 
+(** Server.shouldLog, and the Enabled test of queryLog.Add. *)
 Definition should_log (ev : env) (q : query) : bool :=
+  e_qlog_enabled ev &&
   negb (q_any q && e_refuse_any ev) &&
   negb (qlog_client_ignored (e_ix ev) (e_dhcp ev) (ids_of q)) &&
   negb (e_qign ev (normalize (q_name q))).
@@ -216,3 +219,35 @@ Definition stats_domains (ev : env) (st : store) : list bytes :=
   map (fun s => fst (fst s)) (filter (stat_domain_visible ev) (st_stats st)).
 Definition stats_clients (ev : env) (mac_of : bytes -> option bytes) (st : store) : list sentry :=
   filter (stat_client_visible ev mac_of) (st_stats st).
+
+(** * Query-log configuration: the configured flag and the shared mutator *)
+Record qconf := {
+  qc_enabled : bool;          (* conf.Enabled *)
+  qc_anon : bool;             (* conf.AnonymizeClientIP, what GET /control/querylog/config shows *)
+  qc_mut : bool               (* the function stored in the IPMut: AnonymizeIP (true) or the no-op *)
+}.
+
+(** PUT /control/querylog/config/update: every field is mandatory. *)
+Definition conf_put (enabled anon : bool) (c : qconf) : qconf :=
+  {| qc_enabled := enabled; qc_anon := anon; qc_mut := anon |}.
+
+(** POST /control/querylog_config (deprecated): every field is optional; the
+    mutator is stored only together with the configured flag. *)
+Definition conf_legacy (enabled anon : option bool) (c : qconf) : qconf :=
+  {| qc_enabled := match enabled with Some b => b | None => qc_enabled c end;
+     qc_anon := match anon with Some b => b | None => qc_anon c end;
+     qc_mut := match anon with Some b => b | None => qc_mut c end |}.
+
+Inductive conf_op :=
+  | CPut (enabled anon : bool)
+  | CLegacy (enabled anon : option bool).
+
+Definition conf_step (c : qconf) (o : conf_op) : qconf :=
+  match o with
+  | CPut e a => conf_put e a c
+  | CLegacy e a => conf_legacy e a c
+  end.
+
+(** home: the IPMut is created from the same configuration value. *)
+Definition conf_init (enabled anon : bool) : qconf :=
+  {| qc_enabled := enabled; qc_anon := anon; qc_mut := anon |}.
